@@ -430,6 +430,7 @@ func proxyExtraWorker(outFile string) {
 	progress := outFile + ".progress"
 	proxySeq(out, progress)
 	proxyConnect(out, progress)
+	proxyResStatus(out, progress, lib.Tier())
 	out.Done = true
 	b, _ := json.Marshal(out)
 	os.WriteFile(outFile, b, 0o644)
